@@ -81,7 +81,8 @@ def vm_crosscheck(ctx, exe, cases):
                       "-o", os.path.join(ctx.work, "c18_vm.vo"), vf], cwd=ctx.work, check=False)
     if q.returncode != 0:
         raise vlib.CheckFailure("vm_compute cross-check failed to compile:\n" + q.stdout[-3000:])
-    vm = [t == "true" for t in re.findall(r"\b(true|false)\b", q.stdout.split(":")[0])]
+    mm = re.search(r"=\s*\[(.*?)\]\s*:\s*list bool", q.stdout, re.S)
+    vm = [t == "true" for t in re.findall(r"\b(true|false)\b", mm.group(1))] if mm else []
     if len(vm) != len(ml) or vm != ml:
         raise vlib.CheckFailure("extracted model and vm_compute disagree: ocaml=%s vm=%s" % (ml, vm))
     return {"questions": len(qs), "accepted": sum(ml), "rejected": len(ml) - sum(ml)}
@@ -104,7 +105,7 @@ def run(ctx):
         shims.update(json.loads(extra))
     harness, hsecs = vlib.build_harness("c18", shims=shims)
     gen = (["--nflow", "1500", "--reps", "4", "--ncyc", "8000", "--exhaustive", "20"] if quick else
-           ["--nflow", "12000", "--reps", "6", "--ncyc", "200000", "--exhaustive", "600", "--max-orders", "800"])
+           ["--nflow", "8000", "--reps", "6", "--ncyc", "200000", "--exhaustive", "400", "--max-orders", "800"])
     args = [harness, "--seed", str(ctx.seed), "--out", ctx.work] + gen
     if ctx.replay:
         rp = json.load(open(ctx.replay))
@@ -197,7 +198,7 @@ def run(ctx):
         "audit_files": proof["audit_files"],
         "evaluations": len(cases),
         "distinct_nontrivial": nontrivial,
-        "rule": "FLOW cases: generated workflows of 2-10 tasks (chains, diamonds, fan-in, fan-out, random DAGs, DAGs with late tasks spawned by a completed task, cyclic graphs, graphs whose cycle only closes once a late task exists) rendered to CUE with 7 reference forms (task root, output field, nested output field, intermediate non-task field inside/outside root, string interpolation, nested field of the dependant, comprehension over a group of late tasks), each run under several PRNG-chosen completion orders with/without one injected failure (error or ErrAbort) or a cancellation, plus all completion orders of small DAGs; CYC cases: random graphs of 0-14 nodes given directly to checkCycle. non-trivial: FLOW >= 3 tasks, >= 1 dependency, >= 4 events; CYC >= 3 nodes and a task with >= 2 dependencies; counted over distinct case lines",
+        "rule": "FLOW cases: generated workflows of 2-10 tasks (chains, diamonds, fan-in, fan-out, random DAGs, DAGs with late tasks spawned by a completed task, cyclic graphs, graphs whose cycle only closes once a late task exists) rendered to CUE with 7 reference forms (task root, output field, nested output field, intermediate non-task field inside/outside root, string interpolation, nested field of the dependant, comprehension over a group of late tasks), each run under several PRNG-chosen completion orders with/without one injected failure (error or ErrAbort) or a cancellation, plus all completion orders of small DAGs; CYC cases: random graphs of 0-14 nodes (DAGs, sparse/dense cyclic, self loops, duplicate edges) given directly to checkCycle; WFQ cases: the hypotheses of the theorems evaluated on every generated workflow by Go and by the model. Invalid/hostile stream: cyclic and late-cyclic workflows (20% of the workflows; Run must report, not deadlock), failing / aborting / cancelled runs (about 35% of the schedules), perturbed mostly non-executable label sequences in the vm_compute cross-check. non-trivial: FLOW >= 3 tasks, >= 1 dependency, >= 4 events; CYC >= 3 nodes and a task with >= 2 dependencies; counted over distinct case lines",
         "samples": samples,
         "case_kinds": dict(kinds),
         "flow_outcomes": dict(ends),
